@@ -25,8 +25,11 @@
         `C20_message_names_macro_checking` holds without exception.
     A4  `no_dir` / `no_file` decide "does not exist", not "isn't a directory / file" — STANDS.
     A5  double resolution of path arguments (see `ArgsStable`)            — STANDS.
-    A6  (new) `copyfile` compares `read_all` TEXTS: a correct copy of a file that is not valid UTF-8
-        makes the macro panic with "failed reading src file" (`C20_copyfile_nonutf8_cex`).
+    A6  `copyfile` compared `read_all` TEXTS: a correct copy of a file that is not valid UTF-8 made the
+        macro panic with "failed reading src file"                          — REPAIRED: the macro reads
+        both files as BYTES (`read` + `read_to_end`) and compares the byte vectors. `C20_copyfile_full`
+        is a theorem now, `C20_copyfile` has no UTF-8 condition left, and the former witness (a file
+        holding 0xFF) passes (`C20_copyfile_nonutf8_example`).
 -/
 import Rivia.Lemmas.Macros
 import Rivia.Lemmas.MacrosAct
@@ -248,16 +251,16 @@ theorem C20_mkfile_existing_example (env : Env) :
   ⟨wit_mkfile_run env, macroSpec_mkfile_sFile env⟩
 
 /-- `copyfile`, for a source that is an existing regular file: `copy` is performed; the macro passes
-    iff the copy succeeded and afterwards both paths read back as the same TEXT and the destination is
-    a regular file -/
+    iff the copy succeeded and afterwards both paths read back (`read` + `read_to_end`) as the same
+    BYTES and the destination is a regular file -/
 theorem C20_copyfile_behaviour (env : Env) (s : State) (src dst : Str) (a b : FsPath)
     (hk1 : keyOf env s src = some a) (hs1 : Stable env s a) (hk2 : keyOf env s dst = some b)
     (hs2 : Stable env s b) (hsrc : eAt s a (fun e => e.file && !e.link) = true) :
     (runMacro env s (.copyfile src dst)).2 = (step env s (.copy src dst)).2 ∧
     ((runMacro env s (.copyfile src dst)).1 = .pass ↔
       ((step env s (.copy src dst)).1.isOk = true ∧
-       (∃ x, textOf env (step env s (.copy src dst)).2 src = some x ∧
-             textOf env (step env s (.copy src dst)).2 dst = some x) ∧
+       (∃ x, bytesOf env (step env s (.copy src dst)).2 src = some x ∧
+             bytesOf env (step env s (.copy src dst)).2 dst = some x) ∧
        eAt (step env s (.copy src dst)).2 b (fun e => e.file && !e.link) = true)) :=
   run_copyfile hk1 hs1 hk2 hs2 hsrc
 
@@ -269,52 +272,57 @@ theorem C20_copy_keeps_cwd (env : Env) (s : State) (a b : Str) : (step env s (.c
 theorem C20_copy_keeps_kinds (env : Env) (s : State) (a b : Str) : KeepsKinds s (step env s (.copy a b)).2 :=
   step_copy_keepsKinds env s a b
 
+/-- **`copyfile`, full strength** (was `C20_copyfile_partial` with a "source is valid UTF-8" domain
+    before the repair of A6) — for ANY content of the source, on a well-formed post-state: the macro
+    passes exactly when the copy succeeded and dst is a regular file with the bytes of src; when it
+    passes the filesystem is the state after `copy`. A source that is not an existing regular file
+    makes the macro panic before acting — and the specification is false too. -/
+theorem C20_copyfile (env : Env) (s : State) (src dst : Str)
+    (hst : ArgsStable env s (.copyfile src dst))
+    (hpost : StateOk (step env s (.copy src dst)).2) :
+    ((runMacro env s (.copyfile src dst)).1 = .pass ↔ (macroSpec env s (.copyfile src dst)).1 = true) ∧
+      ((runMacro env s (.copyfile src dst)).1 = .pass →
+        (runMacro env s (.copyfile src dst)).2 = (macroSpec env s (.copyfile src dst)).2) :=
+  copyfile_agree hst hpost
+
 /-- the full statement for `copyfile`: pass ⇔ "the copy succeeded and dst is a regular file with the
-    bytes of src" -/
+    bytes of src" — refuted before the repair of A6 by the non-UTF-8 witness, a theorem now -/
 def C20_copyfile_full : Prop :=
   ∀ (env : Env) (s : State) (src dst : Str), StateOk s → ArgsStable env s (.copyfile src dst) →
     StateOk (macroSpec env s (.copyfile src dst)).2 →
     ((runMacro env s (.copyfile src dst)).1 = .pass ↔ (macroSpec env s (.copyfile src dst)).1 = true)
 
-/-- (A6) `/f` holds the byte 0xFF: `assert_vfs_copyfile!(vfs, "/f", "/g")` copies it correctly
-    (`/g` is a regular file with the same byte) and then panics with "failed reading src file" -/
-theorem C20_copyfile_nonutf8_cex (env : Env) :
-    runMacro env sBin (.copyfile pF pG) =
-      (.panic "assert_vfs_copyfile!" (some "failed reading src file"), sTwo bytesBin) ∧
-    macroSpec env sBin (.copyfile pF pG) = (true, sTwo bytesBin) :=
-  ⟨wit_copyfile_bin_run env, macroSpec_copyfile_sBin env⟩
+theorem C20_copyfile_full_holds : C20_copyfile_full := by
+  intro env s src dst _ hst hpost
+  rw [macroSpec_copyfile_state] at hpost
+  exact (C20_copyfile env s src dst hst hpost).1
 
-theorem C20_copyfile_full_false : ¬ C20_copyfile_full := by
-  intro h
-  have env : Env := fun _ => none
-  have h1 := h env sBin pF pG stateOk_sBin ⟨stableArg_pF env sBin, stableArg_pG env sBin⟩
-    (by rw [macroSpec_copyfile_sBin]; exact stateOk_sTwo_bin)
-  rw [wit_copyfile_bin_run env, macroSpec_copyfile_sBin env] at h1
-  exact absurd (h1.2 rfl) (by simp [pm])
+/-- (A6, repaired) `/f` holds the byte 0xFF — not valid UTF-8: `assert_vfs_copyfile!(vfs, "/f", "/g")`
+    copies it (`/g` is a regular file with the same byte) and PASSES, as specified; `read_all` of the
+    same file still fails with `InvalidData`, which is what made the macro panic before the repair -/
+theorem C20_copyfile_nonutf8_example (env : Env) :
+    runMacro env sBin (.copyfile pF pG) = (.pass, sTwo bytesBin) ∧
+    macroSpec env sBin (.copyfile pF pG) = (true, sTwo bytesBin) ∧
+    pHasBytes env (sTwo bytesBin) pG bytesBin = true ∧
+    step env (sTwo bytesBin) (.readAll pF) = (.err .ioInvalidData, sTwo bytesBin) :=
+  ⟨wit_copyfile_bin_run env, macroSpec_copyfile_sBin env, sTwo_bin_content env, readAll_bin_err env⟩
 
-/-- **partial** — on the domain "the source, read after the copy, is valid UTF-8" (and the post-state
-    is well formed): the macro passes exactly when the copy succeeded and dst is a regular file with
-    the bytes of src; when it passes the filesystem is the state after `copy`. A source that is not
-    an existing regular file makes the macro panic before acting — and the specification is false too. -/
-theorem C20_copyfile (env : Env) (s : State) (src dst : Str)
-    (hst : ArgsStable env s (.copyfile src dst))
-    (hpost : StateOk (step env s (.copy src dst)).2)
-    (htxt : srcTextOk env (step env s (.copy src dst)).2 src = true) :
-    ((runMacro env s (.copyfile src dst)).1 = .pass ↔ (macroSpec env s (.copyfile src dst)).1 = true) ∧
-      ((runMacro env s (.copyfile src dst)).1 = .pass →
-        (runMacro env s (.copyfile src dst)).2 = (macroSpec env s (.copyfile src dst)).2) :=
-  copyfile_agree hst hpost htxt
-
--- non-vacuity: copying `/f` ("old") to `/g` is in the domain, and the assertion holds
+-- non-vacuity: copying `/f` ("old") to `/g` and copying `/f` (0xFF) to `/g` are both in the domain,
+-- and the assertion holds
 example (env : Env) : ArgsStable env sFile (.copyfile pF pG) ∧
-    StateOk (step env sFile (.copy pF pG)).2 ∧ srcTextOk env (step env sFile (.copy pF pG)).2 pF = true ∧
+    StateOk (step env sFile (.copy pF pG)).2 ∧
     macroSpec env sFile (.copyfile pF pG) = (true, sTwo bytesOld) :=
   ⟨⟨stableArg_pF env sFile, stableArg_pG env sFile⟩, by rw [step_copy_sFile]; exact stateOk_sTwo_old,
-    srcTextOk_sFile env, macroSpec_copyfile_sFile env⟩
+    macroSpec_copyfile_sFile env⟩
+
+example (env : Env) : StateOk sBin ∧ ArgsStable env sBin (.copyfile pF pG) ∧
+    StateOk (macroSpec env sBin (.copyfile pF pG)).2 :=
+  ⟨stateOk_sBin, ⟨stableArg_pF env sBin, stableArg_pG env sBin⟩,
+    by rw [macroSpec_copyfile_sBin]; exact stateOk_sTwo_bin⟩
 
 /-- **all eight acting macros**: under `StateOk`, `ArgsStable` and the side conditions `ActOk` on the
-    specified post-state (well-formedness for `mkfile` / `write_all` / `copyfile`, valid UTF-8 source
-    for `copyfile`; nothing for the others) the macro passes exactly when `macroSpec` says so, and when
+    specified post-state (well-formedness for `mkfile` / `write_all` / `copyfile`; nothing for the
+    others) the macro passes exactly when `macroSpec` says so, and when
     it passes the filesystem is in the specified state -/
 theorem C20_acting_all (env : Env) (s : State) (m : MacroCall) (hm : isChecking m = false) (hok : StateOk s)
     (hst : ArgsStable env s m) (hact : ActOk env s m) :
